@@ -247,6 +247,7 @@ def run(ctx):
                 await send({"type": "http.response.start", "status": 206, "headers": []})
                 await send({"type": "http.response.zerocopysend", "file": fd, "offset": 10, "count": 20, "more_body": True})
                 await send({"type": "http.response.body", "body": b"|", "more_body": True})
+                await send({"type": "http.response.zerocopysend", "file": fd, "offset": 7, "count": 1, "more_body": True})      # a single byte
                 await send({"type": "http.response.zerocopysend", "file": fd, "offset": 0, "count": 5})
             finally:
                 _os.close(fd)
